@@ -569,4 +569,51 @@ example := read_all_is_map_of_recover (exCfg 2) okSched (fun _ => rfl) (runCalls
 example : (runCalls (exCfg 2) okSched { store := [] } (exL1 ++ exL2)).store.names
     CHANNEL_MONITOR_PERSISTENCE_PRIMARY_NAMESPACE CHANNEL_MONITOR_PERSISTENCE_SECONDARY_NAMESPACE = ["c", "a", "b"] := by decide
 
+/-- `cleanup_idempotent`. On a store that answers every operation and on which every (lazy or
+    non-lazy) removal lands, a successful run of `cleanup_stale_updates_for_monitor_to(name, latest, lazy)`
+    — the per-monitor body of `cleanup_stale_updates` and the legacy branch of
+    `update_persisted_channel` — leaves nothing to do: every update file it meant to remove (a listed,
+    parseable name with id ≤ latest) is gone, and running it AGAIN succeeds and leaves the store exactly
+    as it is (the same association list, not just the same map), for every monitor name, bound and
+    laziness, whatever else the store holds. -/
+theorem cleanup_idempotent {St Upd : Type} (sc : Sched) (hok : ∀ i, sc.ok i = true) (heff : ∀ i, sc.eff i = true)
+    (w : World St Upd) (name : String) (latest : Nat) (lazy : Bool)
+    (h1 : (cleanupTo sc w name latest lazy).2 = true) :
+    (∀ nm id, nm ∈ w.store.names CHANNEL_MONITOR_UPDATE_PERSISTENCE_PRIMARY_NAMESPACE name → nm.toNat? = some id →
+       staleFilter id latest = true → (cleanupTo sc w name latest lazy).1.store.get (updKey name id) = none) ∧
+    (cleanupTo sc (cleanupTo sc w name latest lazy).1 name latest lazy).2 = true ∧
+    (cleanupTo sc (cleanupTo sc w name latest lazy).1 name latest lazy).1.store = (cleanupTo sc w name latest lazy).1.store := by
+  have hlist : ∀ (w0 : World St Upd), (kList sc w0 UPD name).2 = some (w0.store.names UPD name) ∧ (kList sc w0 UPD name).1.store = w0.store :=
+    fun w0 => ⟨by simp [kList, hok], rfl⟩
+  have hct : ∀ (w0 : World St Upd), cleanupTo sc w0 name latest lazy =
+      cleanupLoop sc name latest lazy (w0.store.names UPD name) (kList sc w0 UPD name).1 := by
+    intro w0; unfold cleanupTo; simp only [(hlist w0).1]
+  rw [hct w] at h1
+  have hparse := cleanupLoop_true_parses sc name latest lazy _ _ h1
+  obtain ⟨_, hstore⟩ := cleanupLoop_healthy sc hok heff name latest lazy _ (kList sc w UPD name).1 hparse
+  rw [(hlist w).2] at hstore
+  have hw1 : (cleanupTo sc w name latest lazy).1.store = delStale name latest (w.store.names UPD name) w.store := by
+    rw [hct w]; exact hstore
+  have hgone : ∀ nm id, nm ∈ w.store.names UPD name → nm.toNat? = some id → staleFilter id latest = true →
+      (cleanupTo sc w name latest lazy).1.store.get (updKey name id) = none := by
+    intro nm id hnm hp hs
+    rw [hw1]; exact delStale_removed name latest _ _ nm id hnm hp hs
+  have hsub : ∀ nm, nm ∈ (cleanupTo sc w name latest lazy).1.store.names UPD name → nm ∈ w.store.names UPD name := by
+    intro nm hnm; rw [hw1] at hnm; exact delStale_names_sub name latest nm _ _ hnm
+  have hparse2 : ∀ nm ∈ (cleanupTo sc w name latest lazy).1.store.names UPD name, (nm.toNat?).isSome = true :=
+    fun nm hnm => hparse nm (hsub nm hnm)
+  obtain ⟨h2, hstore2⟩ := cleanupLoop_healthy sc hok heff name latest lazy _ (kList sc (cleanupTo sc w name latest lazy).1 UPD name).1 hparse2
+  refine ⟨hgone, ?_, ?_⟩
+  · rw [hct (cleanupTo sc w name latest lazy).1]; exact h2
+  · rw [hct (cleanupTo sc w name latest lazy).1, hstore2, (hlist _).2]
+    exact delStale_fixed name latest _ _ (fun nm hnm id hp hs => hgone nm id (hsub nm hnm) hp hs)
+
+/-- non-vacuity: the store of section 2's example after 8 updates has stale files; the theorem applies
+    to the clean-up of monitor "m" up to its stored id -/
+example := cleanup_idempotent (St := List Nat) (Upd := Nat) okSched (fun _ => rfl) (fun _ => rfl)
+  { store := [(("monitor_updates", "m", "2"), .upd 2 20), (("monitor_updates", "m", "9"), .upd 9 90), (("monitors", "", "m"), .mon true "m" ⟨5, []⟩)] } "m" 5 true
+example : (delStale (St := List Nat) (Upd := Nat) "m" 5 ["2", "9"]
+    [(("monitor_updates", "m", "2"), .upd 2 20), (("monitor_updates", "m", "9"), .upd 9 90)]).keys = [("monitor_updates", "m", "9")] := by
+  decide
+
 end Ldk.C19
